@@ -1,6 +1,7 @@
 import Driver.Proto
 import Ibx.Model.FsSteps
 import Ibx.Model.FsCodec
+import Ibx.Model.FsFault
 /-
   mode "crash": the step-program model of the file store (Ibx/Model/FsSteps.lean) with the concrete codec.
 
@@ -12,6 +13,10 @@ import Ibx.Model.FsCodec
                                                   sub=m: RemoveAll at token j has removed m entries
     do <op>                                    run the complete operation -> views
     views                                      -> views
+    fault <op> refuse=<k,k,…|_> [dry=1]        run the operation with the hook calls k (0-based, in the order the code announces them
+                                               to the verif step hook) REFUSED, following the code's error paths (Ibx/Model/FsFault.lean);
+                                               the state becomes what the failed operation leaves (dry=1: the state is kept) ->
+                                               `res=<ok|err|notExist> events=<id,…|_> trace=<hook,…|_> dir=<0|1> orphans=<raw:id,…,tmp|_> <views>`
   <op> ::= add <box> <id> <src> from= to= subj= date= | seen <box> <id> | rm <box> <id> | purge <box>
   A view line: `<hexbox>=[id/seen/size/from/to,to/subj/date/content|...]` per declared mailbox (content `!` = no raw), `ERR` = unreadable.
 -/
@@ -120,6 +125,20 @@ def crashState (s : St) (op : Op) (at_ : Nat) (cut sub : Option Nat) : FS :=
       else fs
     | none, none => fs
 
+def natList (t : String) : Option (List Nat) :=
+  if t == "_" || t == "-" then some [] else (t.splitOn ",").mapM String.toNat?
+
+def csv (l : List String) : String := if l.isEmpty then "_" else ",".intercalate l
+
+/-- the `fault` command: the fault model's outcome of one operation -/
+def faultAnswer (s : St) (op : Op) (ks : List Nat) : St × String :=
+  let o := Ibx.Model.FsFault.opF C (layout s) s.cap (Ibx.Model.FsFault.refuse ks) op s.fs
+  let d := o.fs.dirs op.box
+  let orph := ((Ibx.Model.FsFault.orphanRaws C d).mergeSort (· ≤ ·)).map (fun i => s!"raw:{i}") ++ (if Ibx.Model.FsFault.hasTmp d then ["tmp"] else [])
+  ({ s with fs := o.fs },
+   s!"res={o.res.name} events={csv (o.events.map toString)} trace={csv (o.trace.map (·.name))} dir={if d.isSome then 1 else 0} orphans={csv orph} " ++
+   views s o.fs)
+
 def step (s : St) (toks : List String) : St × String :=
   let (ps, kv) := splitKV toks
   match ps with
@@ -141,6 +160,12 @@ def step (s : St) (toks : List String) : St × String :=
     match parseOp rest kv, (kv.get? "at") >>= String.toNat? with
     | some op, some a =>
       (s, views s (crashState s op a ((kv.get? "cut") >>= String.toNat?) ((kv.get? "sub") >>= String.toNat?)))
+    | _, _ => (s, "bad-op")
+  | "fault" :: rest =>
+    match parseOp rest kv, (kv.get? "refuse") >>= natList with
+    | some op, some ks =>
+      let a := faultAnswer s op ks
+      if kv.get? "dry" == some "1" then (s, a.2) else a
     | _, _ => (s, "bad-op")
   | "do" :: rest =>
     match parseOp rest kv with
